@@ -890,6 +890,10 @@ func (v Value) toReflectValue(typ reflect.Type) (reflect.Value, error) {
 	case reflect.Chan: // FIXME? Chan
 	case reflect.Func: // FIXME? Func
 	case reflect.Ptr: // FIXME? Ptr
+		if v.kind == valueNull || v.kind == valueUndefined {
+			// null and undefined are the nil pointer
+			return reflect.Zero(typ), nil
+		}
 	case reflect.UnsafePointer: // FIXME? UnsafePointer
 	default:
 		switch v.kind {
